@@ -479,6 +479,15 @@ var floatPairs = []pair{
 	{1e-300, 1e-310}, {5e-324, 0}, {1.7976931348623157e308, 0}, {1e-320, 1e-320}, {2, 0.5}, {0.125, 1024},
 	{0.30000000000000004, 0.1}, {-1, 0}, {0, 0}, {1, -0.5}, {6.103515625e-05, -2}, {0.1, -12.8},
 	{3, 7}, {10, -40}, {1000, 0}, {-2, 1},
+	// sign of zero (negative-zero offsets are added at start-up, Go has no -0.0 literal) and overflow
+	// in the sum with a finite product
+	{1.7976931348623157e308, 1.7976931348623157e308}, {-1.7976931348623157e308, -1.7976931348623157e308},
+}
+
+func init() {
+	nz := math.Copysign(0, -1)
+	floatPairs = append(floatPairs, pair{1, nz}, pair{-1, nz}, pair{nz, nz}, pair{nz, 0}, pair{-0.1, nz})
+	intPairs = append(intPairs, pair{0.5, 0.5}, pair{-0.999, 2.999}, pair{3.7, -3.7})
 }
 
 func genDecode(rc *recorder, r *rng, thorough bool) {
